@@ -890,25 +890,79 @@ def r6_access_route_tail(run):
 # ---------------------------------------------------------------------------
 
 def _render_stores(p, f: Func):
-    """(block, receiver text, attributes of the response stored inside the
-    `<resp>._media_rendered is _UNSET` block) for each such block in f."""
+    """(if statement, receiver text, attributes of the response stored where the rendition is found missing) for each
+    test of `<resp>._media_rendered` against `_UNSET` in f.  Read: `is` / `is not` / `==` / `!=` in either operand order,
+    alone or inside `not` / `and` / `or` as long as one branch is proven to be the missing-rendition branch (so an inverted
+    test with an early `else` reads the same); the cache tested through a local bound to it (`rendered =
+    self._media_rendered; if rendered is _UNSET:`); the rendition computed into a local inside the branch and stored into
+    the cache either inside the branch or by a statement that follows the `if` in the same block."""
+    from .common import implied
+
+    parent = enclosing_map(f.node)
+    alias: Dict[str, str] = {}
+    for n in walk_no_nested(f.node):
+        if isinstance(n, ast.Assign) and len(n.targets) == 1 and isinstance(n.targets[0], ast.Name) \
+                and isinstance(n.value, ast.Attribute) and n.value.attr == '_media_rendered':
+            alias[n.targets[0].id] = unparse(n.value.value)
+
+    def cache_recv(e) -> Optional[str]:
+        if isinstance(e, ast.Attribute) and e.attr == '_media_rendered':
+            return unparse(e.value)
+        if isinstance(e, ast.Name) and e.id in alias:
+            return alias[e.id]
+        return None
+
+    def is_unset(e) -> bool:
+        ch = attr_chain(e)
+        return ch is not None and ch[-1] == '_UNSET'
+
+    def atom(e, ops):
+        if not (isinstance(e, ast.Compare) and len(e.ops) == 1 and isinstance(e.ops[0], ops)):
+            return None
+        a, b = e.left, e.comparators[0]
+        if is_unset(b) and cache_recv(a) is not None:
+            return cache_recv(a)
+        if is_unset(a) and cache_recv(b) is not None:
+            return cache_recv(b)
+        return None
+
+    def missing_on(test, truth: bool) -> bool:
+        return implied(test, truth, lambda e: atom(e, (ast.Is, ast.Eq)) is not None) is True \
+            or implied(test, truth, lambda e: atom(e, (ast.IsNot, ast.NotEq)) is not None) is False
+
     out = []
     for n in walk_no_nested(f.node):
         if not isinstance(n, ast.If):
             continue
-        t = n.test
-        if not (isinstance(t, ast.Compare) and len(t.ops) == 1 and isinstance(t.ops[0], ast.Is)
-                and isinstance(t.left, ast.Attribute) and t.left.attr == '_media_rendered'):
+        recvs = {r for x in walk_self(n.test) for r in [atom(x, (ast.Is, ast.Eq, ast.IsNot, ast.NotEq))] if r is not None}
+        if not recvs:
             continue
-        recv = unparse(t.left.value)
+        if len(recvs) != 1:
+            raise UnknownIdiom('%s: `if %s` tests the rendition cache of several objects' % (f.qual, short(n.test, 60)))
+        recv = recvs.pop()
+        branches = [b for b, truth in ((n.body, True), (n.orelse, False)) if missing_on(n.test, truth)]
+        if len(branches) != 1 or not branches[0]:
+            raise UnknownIdiom('%s: cannot tell which branch of `if %s` handles the missing rendition' % (f.qual, short(n.test, 60)))
         attrs = set()
-        for st in n.body:
+        locals_ = set()
+        for st in branches[0]:
             for x in walk_self(st):
                 if isinstance(x, (ast.Assign, ast.AnnAssign, ast.AugAssign)):
                     tg = x.targets if isinstance(x, ast.Assign) else [x.target]
                     for tt in tg:
                         if isinstance(tt, ast.Attribute) and unparse(tt.value) == recv:
                             attrs.add(tt.attr)
+                        elif isinstance(tt, ast.Name):
+                            locals_.add(tt.id)
+        # the rendition held in a local and stored by a statement that follows the `if` in the same block
+        up = parent.get(id(n))
+        for blk in (getattr(up, 'body', None), getattr(up, 'orelse', None), getattr(up, 'finalbody', None)):
+            if isinstance(blk, list) and any(x is n for x in blk):
+                i = next(k for k, x in enumerate(blk) if x is n)
+                for st in blk[i + 1:]:
+                    if isinstance(st, ast.Assign) and isinstance(st.value, ast.Name) and st.value.id in locals_ \
+                            and any(isinstance(tt, ast.Attribute) and tt.attr == '_media_rendered' and unparse(tt.value) == recv for tt in st.targets):
+                        attrs.add('_media_rendered')
         out.append((n, recv, attrs))
     return out
 
@@ -2359,7 +2413,12 @@ def _param_conversions(p, f: Func, depth=0) -> Dict[str, Set[str]]:
         if q is None or q in _NEUTRAL_CALLS:
             continue
         effect_only = isinstance(parent.get(id(c)), ast.Expr)
-        if effect_only and t is not None and t.cls is None and t.module is f.module and depth < 2:
+        # a private module-level helper that is handed SEVERAL of the parameters assembles a piece of the request from
+        # them (`_host_header(host, scheme, port_str)`); like a helper called for its effect it is looked through, it is
+        # not itself a conversion of any one of them
+        assembles = t is not None and t.name.startswith('_') and len({a.id for a in list(c.args) + [k.value for k in c.keywords]
+                                                                      if isinstance(a, ast.Name) and a.id in out}) >= 2
+        if (effect_only or assembles) and t is not None and t.cls is None and t.module is f.module and depth < 2:
             inner = _param_conversions(p, t, depth + 1)
             tps = [a for a in t.params()]
             for i, a in enumerate(c.args):
@@ -2521,8 +2580,6 @@ def _host_value(p, driver: Func, scheme, port):
     if len(sinks) == 1:
         stmt, val = sinks[0]
         stmts, free = _backward_slice(driver, stmt, [val])
-        if not {'scheme', 'port'} <= free:
-            raise UnknownIdiom('%s: the Host header does not depend on both `scheme` and `port`' % driver.qual)
         env = _r20_env(p, ev, driver, free, given)
         _r20_run(ev, driver, stmts, env, what)
         try:
@@ -2556,8 +2613,6 @@ def _host_value(p, driver: Func, scheme, port):
         raise UnknownIdiom('%s: `%s` is not given its parameter `%s`' % (driver.qual, helper.name, missing[0]))
     arg_exprs = [binding[n] for n in wanted if n in binding]
     d_stmts, d_free = _backward_slice(driver, call_stmt, arg_exprs)
-    if not {'scheme', 'port'} <= d_free:
-        raise UnknownIdiom('%s: the Host header built by %s does not depend on both `scheme` and `port` of the driver' % (driver.qual, helper.name))
     env = _r20_env(p, ev, driver, d_free, given)
     _r20_run(ev, driver, d_stmts, env, what)
     h_given = {}
@@ -2724,7 +2779,17 @@ def r21_lifespan_order(run):
         n_lifespan += 1
         cfg = cfg_of(fn, p)
         run.use_cfg(cfg)
-        http = [c for c, k in runs if k == 'http']
+        # HTTP runs on the same executions as the lifespan run (a branch that returns before the lifespan scope is ever
+        # started -- the context-manager conductor owns the lifespan there -- is a different execution)
+        life_nodes = [n.id for n in cfg.live_nodes() if any(x is c for c, k in runs if k == 'lifespan' for x in n.walk())]
+        after_life = flow.reachable(cfg, life_nodes)
+        http = []
+        for c, k in runs:
+            if k != 'http':
+                continue
+            nodes = [n.id for n in cfg.live_nodes() if any(x is c for x in n.walk())]
+            if any(i in after_life for i in nodes) or any(j in flow.reachable(cfg, nodes) for j in life_nodes):
+                http.append(c)
         if not http:
             raise AnchorError('%s runs the lifespan scope but never the HTTP scope (anchor moved?)' % fn.qual)
         started = _await_nodes(p, fn, cfg, lambda e: awaited_callee(fn, e, startup_waiters))
@@ -2740,10 +2805,15 @@ def r21_lifespan_order(run):
                       runtime_witness='an app whose process_startup hook awaits once: simulate_get() dispatches the request while startup is parked; '
                                       'the responder sees the pre-startup state (events: startup-begin, request, startup-end)')
         # (b) shutdown only after the request's task has been awaited
-        tasks = set()
-        for n, vals in assignments(fn).items():
-            if any(v is not None and any(x is c for c in http for x in ast.walk(v)) for v in vals):
-                tasks.add(n)
+        tasks: Set[str] = set()
+        grew = True
+        while grew:                     # request_coro = app(http_scope, ...); request_task = create_task(request_coro)
+            grew = False
+            for n, vals in assignments(fn).items():
+                if n not in tasks and any(v is not None and any(any(x is c for c in http) or (isinstance(x, ast.Name) and x.id in tasks)
+                                                                 for x in ast.walk(v)) for v in vals):
+                    tasks.add(n)
+                    grew = True
         finished = _await_nodes(p, fn, cfg, lambda e: (isinstance(e, ast.Name) and e.id in tasks) or any(e is c for c in http))
         if not finished:
             raise UnknownIdiom('%s: no await of the HTTP task / app call found' % fn.qual)
